@@ -64,6 +64,13 @@ def valStep (_ : Unit) (w : List String) : Unit × String :=
           joinSp [toString t.y, toString t.mo, toString t.d, toString t.h, toString t.mi, toString t.s,
                   toString t.ns, precName tp.2]) (readTs b)
       | none => "bad-op")
+  -- `tsz write <zone> …`: the UTC civil fields of an instant that the implementation holds in another Location (the text
+  -- written is about the instant, not about the Location it is held in)
+  | ["tsz", "write", _, p, y, mo, d, h, mi, s, ns] =>
+      (match precOf? p, y.toNat?, mo.toNat?, d.toNat?, h.toNat?, mi.toNat?, s.toNat?, ns.toNat? with
+      | some p, some y, some mo, some d, some h, some mi, some s, some ns =>
+          toHex (writeTs p { y, mo, d, h, mi, s, ns })
+      | _, _, _, _, _, _, _, _ => "bad-op")
   | ["ts", "write", p, y, mo, d, h, mi, s, ns] =>
       (match precOf? p, y.toNat?, mo.toNat?, d.toNat?, h.toNat?, mi.toNat?, s.toNat?, ns.toNat? with
       | some p, some y, some mo, some d, some h, some mi, some s, some ns =>
